@@ -10,4 +10,10 @@ open KB.Generated
 `e.client`, which the leader-check loop replaces under the write lock; it uses the client captured under the lock. -/
 theorem proxy_watch_goroutine_avoids_shared_client : proxyWatchGoroutineAvoidsSharedClient = true := by decide
 
+/-- C19 / C20 (no request can wedge a node): no method of the node's own code calls, while it holds a mutex of its receiver
+(read or write), another method of that receiver which acquires the same mutex - `sync.Mutex` and the read side of
+`sync.RWMutex` are not re-entrant (a writer arriving between two nested read locks blocks the second one for good). The
+scan is not vacuous: it looked at more than a hundred methods. -/
+theorem no_reentrant_lock_acquisition : lockReentrantCalls = [] ∧ 100 < lockReentrantMethodsScanned := by decide
+
 end KB.OrderC19
